@@ -31,21 +31,21 @@ import (
 	"verif/harness/fx"
 )
 
-// ident is somebody the harness can speak as: a wire id plus a signing account.
-type ident struct {
+// mIdent is somebody the harness can speak as: a wire id plus a signing account.
+type mIdent struct {
 	Name string
 	Wire map[wallet.BackendID]wire.Address
 	Addr map[wallet.BackendID]wallet.Address
 	Acc  wallet.Account
 }
 
-func newStranger(seed int64) ident {
+func newStranger(seed int64) mIdent {
 	rng := rand.New(rand.NewSource(seed))
 	acc := simwallet.NewRandomAccount(rng)
-	return ident{Name: "S", Wire: wiretest.NewRandomAddress(rng), Acc: acc, Addr: map[wallet.BackendID]wallet.Address{0: acc.Address()}}
+	return mIdent{Name: "S", Wire: wiretest.NewRandomAddress(rng), Acc: acc, Addr: map[wallet.BackendID]wallet.Address{0: acc.Address()}}
 }
 
-func partyIdent(p *Party) ident { return ident{Name: p.Name, Wire: p.WireID, Addr: p.Addr, Acc: p.Acc} }
+func partyIdent(p *Party) mIdent { return mIdent{Name: p.Name, Wire: p.WireID, Addr: p.Addr, Acc: p.Acc} }
 
 // pendingAuto describes an update the victim is waiting to accept automatically.
 type pendingAuto struct {
@@ -54,11 +54,11 @@ type pendingAuto struct {
 	Bals channel.Balances // balances of the funded / settled channel
 }
 
-// scene is the situation at the end of the set-up phase.
-type scene struct {
+// mScene is the situation at the end of the set-up phase.
+type mScene struct {
 	w     *World
 	V, M  *Party
-	S     ident
+	S     mIdent
 	Pt    string
 	led   *client.Channel // V's ledger channel with M (nil at nochan)
 	mled  *client.Channel // M's side of it
@@ -75,21 +75,21 @@ type scene struct {
 	seq        byte
 }
 
-func (sc *scene) id(who string) ident {
+func (sc *mScene) id(who string) mIdent {
 	if who == "S" {
 		return sc.S
 	}
 	return partyIdent(sc.M)
 }
 
-func (sc *scene) other(who string) ident {
+func (sc *mScene) other(who string) mIdent {
 	if who == "S" {
 		return partyIdent(sc.M)
 	}
 	return sc.S
 }
 
-func mkAlloc(asset channel.Asset, bals ...int64) *channel.Allocation {
+func mAlloc(asset channel.Asset, bals ...int64) *channel.Allocation {
 	a := channel.NewAllocation(len(bals), []wallet.BackendID{0}, asset)
 	row := make([]channel.Bal, len(bals))
 	for i, b := range bals {
@@ -99,9 +99,9 @@ func mkAlloc(asset channel.Asset, bals ...int64) *channel.Allocation {
 	return a
 }
 
-func flipID(id channel.ID) channel.ID { id[7] ^= 0x5a; return id }
+func mFlipID(id channel.ID) channel.ID { id[7] ^= 0x5a; return id }
 
-func fixedID(b byte) (id [32]byte) {
+func mFixedID(b byte) (id [32]byte) {
 	for i := range id {
 		id[i] = b
 	}
@@ -114,13 +114,13 @@ var msgsPoints = []string{"nochan", "open-v0", "open-v1", "paid-v0", "paid-v1", 
 // subBals are the balances of every sub-channel the set-up opens: index 0 (the proposer) 2, index 1: 4.
 var subBals = []int64{2, 4}
 
-func (sc *scene) openSub(proposer, proposee *Party, parent *client.Channel) (pc, qc *client.Channel, err error) {
-	prop, err := client.NewSubChannelProposal(parent.ID(), 60, mkAlloc(sc.w.Asset, subBals...), proposer.nextNonce())
+func (sc *mScene) openSub(proposer, proposee *Party, parent *client.Channel) (pc, qc *client.Channel, err error) {
+	prop, err := client.NewSubChannelProposal(parent.ID(), 60, mAlloc(sc.w.Asset, subBals...), proposer.nextNonce())
 	if err != nil {
 		return nil, nil, err
 	}
 	sc.seq++
-	prop.ProposalID = fixedID(0xB0 + sc.seq)
+	prop.ProposalID = mFixedID(0xB0 + sc.seq)
 	ctx, cancel := context.WithTimeout(context.Background(), 10*time.Second)
 	defer cancel()
 	n := len(proposee.Chans)
@@ -133,7 +133,7 @@ func (sc *scene) openSub(proposer, proposee *Party, parent *client.Channel) (pc,
 }
 
 // addSub opens a sub-channel of the ledger channel (proposed by the ledger channel's index 0).
-func (sc *scene) addSub() error {
+func (sc *mScene) addSub() error {
 	var vc, mc *client.Channel
 	var err error
 	if sc.vIdx == 0 {
@@ -160,7 +160,7 @@ func isParentUpdateFrom(w *World, e *wire.Envelope, who int, id channel.ID) (*cl
 }
 
 // setup drives the world to the history point sc.Pt under the default schedule.
-func (sc *scene) setup() error {
+func (sc *mScene) setup() error {
 	w := sc.w
 	pt := sc.Pt
 	if pt == "nochan" {
@@ -228,11 +228,11 @@ func (sc *scene) setup() error {
 				}
 			})
 		}
-		prop, err := client.NewSubChannelProposal(sc.mled.ID(), 60, mkAlloc(w.Asset, subBals...), sc.M.nextNonce())
+		prop, err := client.NewSubChannelProposal(sc.mled.ID(), 60, mAlloc(w.Asset, subBals...), sc.M.nextNonce())
 		if err != nil {
 			return err
 		}
-		prop.ProposalID = fixedID(0xBF)
+		prop.ProposalID = mFixedID(0xBF)
 		vsched.GoNamed("m-propose-sub", func() {
 			ctx, cancel := context.WithTimeout(context.Background(), 20*time.Second)
 			defer cancel()
@@ -242,7 +242,7 @@ func (sc *scene) setup() error {
 		})
 		vsched.WaitCond("await-funding-update", func() bool { return sc.realFund != nil })
 		fund := sc.realFund.State.Locked[len(sc.realFund.State.Locked)-1]
-		sc.pend = append(sc.pend, pendingAuto{Kind: "fund", ID: fund.ID, Bals: mkAlloc(w.Asset, subBals...).Balances})
+		sc.pend = append(sc.pend, pendingAuto{Kind: "fund", ID: fund.ID, Bals: mAlloc(w.Asset, subBals...).Balances})
 	case "await-subsettle", "await-subsettle2":
 		if base == "await-subsettle2" {
 			if err := sc.addSub(); err != nil {
@@ -275,7 +275,7 @@ func (sc *scene) setup() error {
 
 // ---- decodability ----
 
-func encDec(env *wire.Envelope, ser wire.EnvelopeSerializer) (dec *wire.Envelope, data []byte, err error) {
+func mEncDec(env *wire.Envelope, ser wire.EnvelopeSerializer) (dec *wire.Envelope, data []byte, err error) {
 	defer func() {
 		if r := recover(); r != nil {
 			err = fmt.Errorf("panic: %v", r)
@@ -290,7 +290,7 @@ func encDec(env *wire.Envelope, ser wire.EnvelopeSerializer) (dec *wire.Envelope
 	return dec, data, err
 }
 
-func dumpAlloc(a *channel.Allocation) string {
+func mDumpAlloc(a *channel.Allocation) string {
 	if a == nil {
 		return "<nil>"
 	}
@@ -323,7 +323,7 @@ func dumpAlloc(a *channel.Allocation) string {
 	return sb.String()
 }
 
-func allocsOf(m wire.Msg) []*channel.Allocation {
+func mAllocsOf(m wire.Msg) []*channel.Allocation {
 	st := func(s *channel.State) *channel.Allocation {
 		if s == nil {
 			return nil
@@ -345,37 +345,37 @@ func allocsOf(m wire.Msg) []*channel.Allocation {
 	return nil
 }
 
-func sameAllocs(a, b wire.Msg) bool {
-	x, y := allocsOf(a), allocsOf(b)
+func mSameAllocs(a, b wire.Msg) bool {
+	x, y := mAllocsOf(a), mAllocsOf(b)
 	if len(x) != len(y) {
 		return false
 	}
 	for i := range x {
-		if dumpAlloc(x[i]) != dumpAlloc(y[i]) {
+		if mDumpAlloc(x[i]) != mDumpAlloc(y[i]) {
 			return false
 		}
 	}
 	return true
 }
 
-// prepare proves that the envelope is decodable and reaches the victim as intended: it is
+// mPrepare proves that the envelope is decodable and reaches the victim as intended: it is
 // encoded and decoded with the native serializer (or protobuf when the case asks for it or
 // the native codec cannot express the value), the decoded message must re-encode to the same
 // bytes and carry the same allocations. Returns the decoded envelope (what the victim sees).
-func prepare(env *wire.Envelope, forceProto bool) (dec *wire.Envelope, proto bool, why string) {
+func mPrepare(env *wire.Envelope, forceProto bool) (dec *wire.Envelope, proto bool, why string) {
 	try := func(ser wire.EnvelopeSerializer) (*wire.Envelope, string) {
-		d, data, err := encDec(env, ser)
+		d, data, err := mEncDec(env, ser)
 		if err != nil {
 			return nil, err.Error()
 		}
-		_, data2, err := encDec(d, ser)
+		_, data2, err := mEncDec(d, ser)
 		if err != nil {
 			return nil, "re-encoding: " + err.Error()
 		}
 		if !bytes.Equal(data, data2) {
 			return nil, "decoded message encodes differently"
 		}
-		if fmt.Sprintf("%T", d.Msg) != fmt.Sprintf("%T", env.Msg) || !sameAllocs(env.Msg, d.Msg) {
+		if fmt.Sprintf("%T", d.Msg) != fmt.Sprintf("%T", env.Msg) || !mSameAllocs(env.Msg, d.Msg) {
 			return nil, "decoded message differs from the crafted one"
 		}
 		return d, ""
@@ -415,17 +415,17 @@ func rejectUpdates(p *Party, _ *channel.State, _ client.ChannelUpdate, r *client
 
 // ---- probes ----
 
-type probeRes struct {
+type mProbeRes struct {
 	What string
 	Res  string // "ok" or the error class
 }
 
-func (p probeRes) ok() bool { return p.Res == "ok" }
+func (p mProbeRes) ok() bool { return p.Res == "ok" }
 
 // probe checks that every channel the victim had before the adversarial phase still works in
 // both directions, with the real peer M (30 s of virtual time per request). M proposes first:
 // the victim's own probe then uses a version no crafted message referred to.
-func (sc *scene) probe() (out []probeRes) {
+func (sc *mScene) probe() (out []mProbeRes) {
 	w := sc.w
 	w.Bus.Drop = nil
 	sc.V.OnProposal, sc.V.OnUpdate = nil, nil
@@ -433,7 +433,7 @@ func (sc *scene) probe() (out []probeRes) {
 		ctx, cancel := context.WithTimeout(context.Background(), 30*time.Second)
 		defer cancel()
 		err := ch.Update(ctx, pay(int(ch.Idx()), 1, false))
-		out = append(out, probeRes{what, classify(err)})
+		out = append(out, mProbeRes{what, classify(err)})
 	}
 	if sc.led != nil && !strings.HasPrefix(sc.Pt, "final") {
 		one("update of the ledger channel proposed by M", sc.mled)
@@ -445,7 +445,7 @@ func (sc *scene) probe() (out []probeRes) {
 	}
 	if sc.led == nil {
 		_, _, err := w.OpenLedger(1, 0, 5, 5)
-		out = append(out, probeRes{"fresh ledger channel proposed by M", classify(err)})
+		out = append(out, mProbeRes{"fresh ledger channel proposed by M", classify(err)})
 	}
 	vsched.Sleep(time.Second)
 	return out
